@@ -23,6 +23,34 @@
 (*     calculateRetryFeeRate), Bump (IncreaseFeeRate at a new block),       *)
 (*     Pub (Wallet.PublishTransaction), Done (the BumpResult).              *)
 (*                                                                          *)
+(*  3. the sweeper above the publisher (sweeper.go: sweepPendingInputs ->     *)
+(*     sweep): the BumpRequest is BUILT by UtxoSweeper.sweep from the       *)
+(*     sweeper's configuration and the input set.  The request record `rq'  *)
+(*     therefore carries, next to what reached the publisher (budget,       *)
+(*     maxrate, deadline, sopt), what the property talks about:             *)
+(*       cfgvb      the configured maximum (sweeper.maxfeerate, in sat/vb - *)
+(*                  the unit of the configuration; 1 sat/vb = 250 sat/kw)   *)
+(*       inbudget   the sum of the budgets attached to the inputs           *)
+(*       indeadline the deadline attached to the inputs                     *)
+(*     and SweepReq(c, s) is the request sweep() has to build (action       *)
+(*     Request).  "No larger than the configured maximum" and "reaches the  *)
+(*     lesser of budget-over-size and the maximum" are stated against       *)
+(*     CfgMax = 250 * cfgvb and inbudget, and the request must carry        *)
+(*     exactly those (SweepMaxIsConfigured, SweepBudgetIsInputs,            *)
+(*     SweepDeadlineIsInputs - like RegroupStart for the starting rate).    *)
+(*                                                                          *)
+(* INPUT UNIVERSE of a request: plain inputs, inputs with a required output *)
+(* (reqout), wallet top-ups (part of totalin/weight), and inputs that carry *)
+(* unconfirmed-parent info (input.TxInfo: the anchor used to CPFP a force   *)
+(* close): pweight/pfee are the weight and fee of that parent (0/0: none),  *)
+(* at any fee rate below, at or above the rate on offer.  The fee of the    *)
+(* sweep tx is the offered rate over the tx's OWN weight (CreateReq does    *)
+(* not read pweight/pfee: prepareSweepTx uses estimator.fee(), the parent   *)
+(* totals are only logged), so that the published tx itself - fee = inputs  *)
+(* - outputs over its own weight - stays at the offered rate and below the  *)
+(* configured maximum (PubTxRateLeCfgMax; on the recorded transaction:      *)
+(* TxRateLeCfgMax and TxPaysOfferedRate in SweepFeeTrace).                  *)
+(*                                                                          *)
 (* ARITHMETIC.  All rates are integers in sat/kw, deltaFeeRate in msat/kw,  *)
 (* fees in sat.  FeeForWeight is integer (floor).  Three values are         *)
 (* computed by the code through float64 (btcutil.Amount.MulF64 = round to   *)
@@ -107,7 +135,8 @@ vars == <<ff, rq, pc, mode, tx, pub, res, last, g>>
 
 NoFF  == [live |-> FALSE, start |-> 0, end |-> 0, width |-> 0, pos |-> 0, cur |-> 0, delta |-> 0]
 NoRq  == [budget |-> 0, weight |-> 1, maxrate |-> 0, relay |-> 0, totalin |-> 0, reqout |-> 0,
-          dust |-> 0, deadline |-> 0, sopt |-> -1, est |-> 0, prevmax |-> 0]
+          dust |-> 0, deadline |-> 0, sopt |-> -1, est |-> 0, prevmax |-> 0,
+          cfgvb |-> 0, inbudget |-> 0, indeadline |-> 0, pweight |-> 0, pfee |-> 0]
 NoTx  == [err |-> "none", rate |-> 0, fee |-> 0, change |-> 0]
 NoPub == [n |-> 0, rate |-> 0, fee |-> 0, change |-> 0]
 NoRes == [event |-> "none", err |-> "none", rate |-> 0]
@@ -219,7 +248,23 @@ BumpFF(ct, r) == pc = "ff" /\ FFBump(ct, r) /\ UNCHANGED <<rq, pc, mode, tx, pub
 (* p.sopt, which must be SetStart(p.prevmax) (invariant RegroupStart).       *)
 SetStart(prevmax) == IF prevmax > 0 THEN prevmax ELSE -1
 
-(* a BumpRequest is handed to the publisher: storeInitialRecord *)
+(* THE SWEEPER'S REQUEST.  chainfee.SatPerVByte.FeePerKWeight: v*1000/4     *)
+KwPerVb == 250
+CfgMax(q) == KwPerVb * q.cfgvb
+(* UtxoSweeper.sweep: the BumpRequest for an input set s                    *)
+(*   [weight, totalin, reqout, dust, inbudget, indeadline, prevmax,          *)
+(*    pweight, pfee]                                                         *)
+(* under the sweeper's configuration and environment c [maxvb, relay, est]   *)
+SweepReq(c, s) ==
+  [budget |-> s.inbudget, maxrate |-> KwPerVb * c.maxvb, deadline |-> s.indeadline,
+   sopt |-> SetStart(s.prevmax), weight |-> s.weight, totalin |-> s.totalin, reqout |-> s.reqout,
+   dust |-> s.dust, relay |-> c.relay, est |-> c.est, prevmax |-> s.prevmax,
+   cfgvb |-> c.maxvb, inbudget |-> s.inbudget, indeadline |-> s.indeadline,
+   pweight |-> s.pweight, pfee |-> s.pfee]
+
+(* UtxoSweeper.sweep builds the request p (= SweepReq(config, set) in the     *)
+(* model; in a trace: what the code built, judged by the Sweep* invariants)  *)
+(* and hands it to the publisher: Broadcast -> storeInitialRecord            *)
 Request(p) ==
   /\ pc = "none"
   /\ rq' = p
@@ -267,7 +312,9 @@ InitFF(height, e, dl) ==
 (* createSweepTx/prepareSweepTx at a rate, then the budget check of         *)
 (* createAndCheckTx.  A change below the dust limit of the change script is *)
 (* added to the fee (named: AbsorbDust); without a required output that is  *)
-(* a tx without outputs and refused.                                        *)
+(* a tx without outputs and refused.  The fee is the rate over the weight of *)
+(* the sweep tx alone: unconfirmed-parent info of an input (q.pweight,      *)
+(* q.pfee) is not part of it, whatever the parent's own fee rate.           *)
 CreateReq(q, rate) ==
   LET fee0 == FeeFor(rate, q.weight)
       chg  == q.totalin - q.reqout - fee0
@@ -449,6 +496,23 @@ RegroupStart == InPub => rq.sopt = SetStart(rq.prevmax)
 (* (up to the ceiling of the new set)                                       *)
 RegroupNoDecrease == (InPub /\ ff.live) => ff.cur >= Min(rq.prevmax, ff.end)
 PubRegroupNoDecrease == (InPub /\ pub.n > 0) => pub.rate >= Min(rq.prevmax, ff.end)
+
+(* -- the sweeper's request ----------------------------------------------- *)
+(* what reaches the publisher (and through MaxFeeRateAllowed the fee         *)
+(* function) is the configured maximum, the budget attached to the inputs    *)
+(* and their deadline                                                        *)
+SweepMaxIsConfigured  == InPub => rq.maxrate = CfgMax(rq)
+SweepBudgetIsInputs   == InPub => rq.budget = rq.inbudget
+SweepDeadlineIsInputs == InPub => rq.deadline = rq.indeadline
+(* the property against the configuration and the inputs, not the request   *)
+PubRateLeCfgMax     == (InPub /\ pub.n > 0 /\ ~StartTrigger) => pub.rate <= CfgMax(rq)
+PubFeeLeInputBudget == (InPub /\ pub.n > 0) => pub.fee <= rq.inbudget
+(* the published tx's OWN fee rate - its fee over its own weight, a parent   *)
+(* it may pay for is not its size - is no larger than the configured         *)
+(* maximum (up to a sub-dust change added to the fee: AbsorbDust)            *)
+AbsorbMax(q, change) == IF change = 0 THEN Max(q.dust, 1) - 1 ELSE 0
+PubTxRateLeCfgMax == (InPub /\ pub.n > 0 /\ ~StartTrigger) =>
+                        pub.fee <= FeeFor(CfgMax(rq), rq.weight) + AbsorbMax(rq, pub.change)
 
 (* the same without the trigger guards: what the deviations break (used to   *)
 (* show at model level that RoundCeil = TRUE / ClampStart = FALSE violate    *)
